@@ -1000,8 +1000,16 @@ func (e primaryMismatch) Error() string {
 // When rollbackIfNotExist is false, the caller should be careful with the txnNotFoundErr error.
 func (lr *LockResolver) getTxnStatus(bo *retry.Backoffer, txnID uint64, primary []byte,
 	callerStartTS, currentTS uint64, rollbackIfNotExist bool, forceSyncCommit bool, lockInfo *Lock) (TxnStatus, error) {
-	if s, ok := lr.getResolved(txnID); ok {
-		return s, nil
+	// A pessimistic lock that names itself as the primary is cleaned up by the CheckTxnStatus request itself
+	// (resolvePessimisticLock relies on that and sends nothing for it). Such a lock does not necessarily sit on
+	// the real primary of its transaction (https://github.com/pingcap/tidb/issues/42937), so the status may
+	// already be cached from another lock of the transaction; answering from the cache would leave the lock
+	// unresolved for ever.
+	cleanedByCheckTxnStatus := lockInfo != nil && lockInfo.IsPessimistic() && bytes.Equal(lockInfo.Key, primary)
+	if !cleanedByCheckTxnStatus {
+		if s, ok := lr.getResolved(txnID); ok {
+			return s, nil
+		}
 	}
 
 	metrics.LockResolverCountWithQueryTxnStatus.Inc()
